@@ -461,7 +461,9 @@ def to_model(g: Grammar, name='T', **settings):
         if isinstance(e, OverList):
             return peg.OverrideList(exp=bt(e.e))
         if isinstance(e, Const):
-            return peg.Constant(literal=const_literal(e.text))
+            lit = const_literal(e.text)
+            # the text route delivers the value as the node's ast; a falsy number given as `literal=` would be dropped
+            return peg.Constant(ast=lit) if not isinstance(lit, str) else peg.Constant(literal=lit)
         if isinstance(e, Alert):
             return peg.Alert(literal=e.text, level=e.level)
         if isinstance(e, Void):
@@ -516,7 +518,7 @@ def const_literal(text: str):
     import ast
     try:
         v = ast.literal_eval(text.strip())
-    except (ValueError, SyntaxError):
+    except Exception:  # noqa: BLE001 - not a literal (literal_eval raises TypeError for `{{1}}`, MemoryError ...)
         return text
     if isinstance(v, (int, float)) and not isinstance(v, bool):
         return v
